@@ -709,6 +709,10 @@ def rule_counted(ctx):
                         for z in walk(y["l"]):
                             if z.get("k") == "Path" and z.get("local") in roots:
                                 counted = True
+                        # the root is the result of a fold / for_each whose closure does the counting: `fold(vec![HashMap::new(); n], |mut maps, ..| { .. += 1; maps })`
+                        for rl_ in roots:
+                            if rl_ in inits and any(w is y for w in walk(inits[rl_])):
+                                counted = True
                         # through `for (map, val) in maps.iter_mut().zip(..)`: the incremented binding iterates over the root
                         for z in walk(fn["body"]):
                             if z.get("k") == "Match" and z.get("src") == "ForLoopDesugar" and any(w is y for w in walk(z)) and any(w.get("k") == "Path" and w.get("local") in roots for w in walk(z["scrut"])):
@@ -728,8 +732,11 @@ def rule_counted(ctx):
                         hops += 1
                         e1 = stack.pop()
                         for y in walk(e1):
-                            if y.get("k") == "MethodCall" and y["name"] in ("collect", "insert", "extend", "from_iter", "zip", "cloned", "to_owned") and y["name"] in ("collect", "insert", "extend", "from_iter"):
-                                preseed = y
+                            if y.get("k") == "MethodCall" and y["name"] in ("collect", "insert", "extend", "from_iter"):
+                                # only what builds the *map*: a collect into a HashMap, an insert / extend on one
+                                ty_ = (c.ty(y.get("t")) or "") if y["name"] in ("collect", "from_iter") else (c.ty(peel_refs(y["recv"]).get("t")) or "")
+                                if "HashMap<" in ty_ and "Vec<" not in ty_.split("HashMap<")[0]:
+                                    preseed = y
                             if y.get("k") == "Path" and y.get("local") in inits and y["local"] not in seen_l:
                                 seen_l.add(y["local"])
                                 stack.append(inits[y["local"]])
